@@ -852,11 +852,12 @@ fn decode_7bit(mut input: impl io::BufRead) -> io::Result<usize> {
     let mut res = 0usize;
     loop {
         let b = read_unescape(&mut input)?;
-        match res.checked_shl(7) {
-            Some(v) => res = v,
-            None => return err("integer too large"),
+        // `checked_shl()` only checks the shift amount, not whether bits are
+        // shifted out
+        if res >> (usize::BITS - 7) != 0 {
+            return err("integer too large");
         }
-        res |= (b >> 1) as usize;
+        res = (res << 7) | (b >> 1) as usize;
         if b & 1 == 0 {
             return Ok(res);
         }
